@@ -14,7 +14,7 @@ import os
 import struct
 
 import numpy as np
-from cherab.core.atomic import hydrogen, deuterium, helium, carbon, neon
+from cherab.core.atomic import hydrogen, deuterium, helium, carbon, neon, protium
 import cherab.openadas.repository as R
 import cherab.openadas.repository.atomic as m_atomic
 import cherab.openadas.repository.pec as m_pec
@@ -37,10 +37,13 @@ from ..machine import Machine
 from ..seams.simfs import SimFS, install as fs_install
 from ..seams import adfwriters as W
 
-SPECIES = {"H": hydrogen, "D": deuterium, "He": helium, "C": carbon, "Ne": neon}
-ZNUM = {"H": 1, "D": 1, "He": 2, "C": 6, "Ne": 10}
+# "H1" is the isotope protium: a different object from hydrogen with the *same symbol* 'H' (same repository key, same file)
+SPECIES = {"H": hydrogen, "D": deuterium, "He": helium, "C": carbon, "Ne": neon, "H1": protium}
+ZNUM = {"H": 1, "D": 1, "He": 2, "C": 6, "Ne": 10, "H1": 1}
+SYMBOL = {"H": "H", "D": "D", "He": "He", "C": "C", "Ne": "Ne", "H1": "H"}
 ROOTS = ["/sim/root1", "/sim/root1x/", "/sim/other/deep/repo"]
-TRANSITIONS = [[3, 2], [4, 2], [5, 3], ["2s1 2P0.5", "1S0"], ["2S1 2p0.5", "1s0"], ["3d 2D2.5", "2p 2P1.5"], [2, 1]]
+TRANSITIONS = [[3, 2], [4, 2], [5, 3], ["2s1 2P0.5", "1S0"], ["2S1 2p0.5", "1s0"], ["3d 2D2.5", "2p 2P1.5"], [2, 1],
+               ["2s1  2P0.5", "1S0"], [" 2s1 2p0.5", "1s0 "], ["3", "2"]]     # white-space variants are *different* keys; "3" aliases 3
 
 ADF11 = {"ionisation": ("add_ionisation_rate", "update_ionisation_rates", "get_ionisation_rate", "ionisation/{sp}.json"),
          "recombination": ("add_recombination_rate", "update_recombination_rates", "get_recombination_rate", "recombination/{sp}.json"),
@@ -66,12 +69,16 @@ def ckey(fam, root, key):
     parts = []
     for p in KEYPARTS[fam]:
         v = key[p]
-        parts.append(enc_tr(v) if p == "tr" else v)
+        if p == "tr":
+            v = enc_tr(v)
+        elif p in ("sp", "d", "b"):
+            v = SYMBOL[v]                 # keys are (family, species *symbol*, ...)
+        parts.append(v)
     return (fam, root) + tuple(parts)
 
 
 def file_of(fam, key):
-    k = {p: (str(v).lower() if p in ("sp", "d", "b") else v) for p, v in key.items()}
+    k = {p: (SYMBOL[v].lower() if p in ("sp", "d", "b") else v) for p, v in key.items()}
     if fam in ADF11:
         return ADF11[fam][3].format(**k)
     return {"thermal_cx": "thermal_cx/{d}/{dc}/{sp}.json", "pec_excitation": "pec/excitation/{sp}/{ch}.json",
@@ -219,7 +226,7 @@ class RepositoryMachine(Machine):
     # ------------------------------------------------------------------ generation
     def generate(self, rng, tier):
         g = Gen(rng)
-        species = rng.sample(list(SPECIES), rng.randint(2, 5))
+        species = rng.sample(list(SPECIES), rng.randint(2, 6))
         nroots = rng.choice([1, 1, 2])
         roots = rng.sample(range(len(ROOTS)), nroots)
         faults = rng.random() < (0.10 if tier == "quick" else 0.25)
@@ -296,7 +303,7 @@ class RepositoryMachine(Machine):
                            "adf21", "adf22bmp", "adf22bme"])
         op = {"op": "install", "kind": kind, "root": root, "download": rng.random() < 0.4,
               "file": "adf/%s/f%d.dat" % (kind, rng.randrange(3)), "tag": rng.randrange(1000)}
-        sp = rng.choice([s for s in species if s != "D"] or ["C"])
+        sp = rng.choice([s for s in species if s not in ("D", "H1")] or ["C"])
         op["sp"] = sp
         z = ZNUM[sp]
         if kind.startswith("adf11"):
@@ -622,10 +629,12 @@ class RepositoryMachine(Machine):
         # last entry wins when an update names the same canonical key twice
         offered = {}
         payloads = {}
+        every = {}         # canonical key -> every value offered for it by this call (aliases: case, white space, isotope symbol)
         for e in (self._application_order(fam, entries) if op["op"] == "update" else entries):
             ck = ckey(fam, root, e["key"])
             offered.pop(ck, None)
             offered[ck] = (e["key"], expected(fam, e["payload"]))
+            every.setdefault(ck, []).append(offered[ck][1])
             payloads[ck] = e["payload"]
         files_before = {self._abs(c, root, file_of(fam, key)) for key, _ in offered.values()}
         touching_poisoned = bool(files_before & c.poisoned)
@@ -663,7 +672,7 @@ class RepositoryMachine(Machine):
             return "ok"
         if fault_fired or touching_poisoned:
             # an injected storage fault (or a file torn earlier) made the call fail: named keys old-or-new, everything else exact
-            alt = {ck: [c.model[ck]["value"] if ck in c.model else None, val] for ck, (key, val) in offered.items()}
+            alt = {ck: [c.model[ck]["value"] if ck in c.model else None] + every[ck] for ck, (key, val) in offered.items()}
             self._audit(c, env, "failed %s %s" % (op["op"], fam), alternatives=alt)
             return "raised:fault"
         raise Violation("write-refused", "%s.%s" % (op["op"], fam), "valid %s of %d key(s) raised %s: %s" % (
@@ -753,8 +762,11 @@ class RepositoryMachine(Machine):
         for e in (self._application_order(fam, entries) if not (op.get("via") == "add" and how not in ("species", "pecclass")) else entries):
             try:
                 ck = ckey(fam, root, e["key"])
-                offered.pop(ck, None)
-                offered[ck] = (e["key"], expected(fam, e["payload"]) if e is not bad else None)
+                prev = offered.pop(ck, None)
+                vals = list(prev[1]) if prev else []
+                if e is not bad:
+                    vals.append(expected(fam, e["payload"]))
+                offered[ck] = (e["key"], vals)       # several entries may alias one key (case, white space, isotope symbol)
             except Exception:
                 pass
         env.fault_armed("reject-" + how)
@@ -776,9 +788,9 @@ class RepositoryMachine(Machine):
             return "accepted"
         env.fault_fired("reject-" + how)
         alt = {}
-        for ck, (key, val) in offered.items():
+        for ck, (key, vals) in offered.items():
             old = c.model[ck]["value"] if ck in c.model else None
-            alt[ck] = [old] + ([val] if val is not None else [])
+            alt[ck] = [old] + list(vals)
         # (a) every key not named is bit-identical, (b) named keys readable with old or offered value
         self._audit(c, env, "rejected %s (%s)" % (fam, how), alternatives=alt)
         env.probe("reject_then_audit")
